@@ -394,7 +394,7 @@ def rule_store_per_call(ctx: Ctx, repo: Repo) -> None:
             if d == "sqlite3.connect":
                 _c.append((st.freeze(args[0]) if args else None, _w["cwd"]))
                 return R("connection", path=st.freeze(args[0]) if args else K(None), cwd=K(_w["cwd"]), n=K(len(_c)))
-            if d == "os.environ.get" and args:
+            if d in ("os.environ.get", "os.getenv", "environ.get", "getenv") and args:
                 if _w["env"] is not None:
                     return K(_w["env"])
                 return args[1] if len(args) > 1 else K(None)
